@@ -174,6 +174,17 @@ def check_C02(ctx):
 C08_HISTORIES = ["H1-upload", "H1z-upload-3-chunks", "H2-ac-overwrite", "H3-wrong-hash-cleanup", "H4-evict", "H5-backend-fetch"]
 
 
+def check_C17(ctx):
+    th = ctx.thorough()
+    jobs = e2lru_jobs(ctx, "C17", 6 if th else 4, 1500 if th else 100, hard_extras=(-1, 0, 1, 2))
+    scen = ["S17-hardlimit-unset", "S17-hardlimit-max", "S17-hardlimit-max+1blk", "S17-hardlimit-max+2blk"] if th else ["S17-hardlimit-unset", "S17-hardlimit-max", "S17-hardlimit-max+1blk"]
+    jobs += e1_jobs(ctx, "C17", scen, 3 if th else 2, 8 if th else 3, 1500 if th else 150)
+    jobs.append(Job(ctx.bin(GRID), "TestC17", name="C17:status-mapping", timeout=600))
+    return dict(level="model_checking", jobs=jobs,
+                rule="(1) explicit-state BFS on the real SizedLRU with hard limit in {unset, max, max+1, max+2 blocks}: admission <=> size<=max and reserved+size<=max and accounted+backlog+size<=limit, refused => nothing changed; (2) all <=2/3-preemption schedules of two uploads + an existence check into a full cache with the background remover (and its backlog counter) under scheduler control, so every amount of deletion lag occurs; (3) every write path against a full cache at server level for the 507 / RESOURCE_EXHAUSTED mapping",
+                assumptions=E2_ASSUME[:2] + E1_ASSUME + ["E1 here also makes the backlog counter's atomic operations scheduling points"])
+
+
 def check_C08(ctx):
     th = ctx.thorough()
     b = ctx.bin(DISK)
@@ -226,7 +237,7 @@ def check_C13(ctx):
                              "a method unknown to the harness's read-only list is treated as mutating"])
 
 
-CHECKS = {"C01": check_C01, "C02": check_C02, "C08": check_C08, "C09": check_C09, "C13": check_C13, "C03": check_C03, "C04": check_C04, "C05": check_C05, "C07": check_C07}
+CHECKS = {"C01": check_C01, "C02": check_C02, "C08": check_C08, "C09": check_C09, "C13": check_C13, "C17": check_C17, "C03": check_C03, "C04": check_C04, "C05": check_C05, "C07": check_C07}
 
 # per-property manifest metadata
 META = {
@@ -254,6 +265,12 @@ META = {
         note="Small-scope: <=3 entries per population, three size classes; atimes set explicitly.",
         technique="exhaustive enumeration of a bounded grammar of on-disk states x configurations, real start-up code, reference simulation oracle",
         design_ref="DESIGN.md 3 (C09)"),
+    "C17": dict(
+        category="model_checking", engine="E2 seqx + E1 vsched + E4 grid",
+        text="Admission under max_size_hard_limit decided three ways: explicit-state BFS over reserve/add/get/remove/remover-step sequences on the real SizedLRU for limits {unset, max, max+1 block, max+2 blocks} with the exact iff-oracle and 'refused => nothing changed'; schedule exploration of concurrent uploads into a full cache with the background remover and its atomic backlog counter owned by the scheduler (all amounts of deletion lag), checking status codes, 'never refused when the option is unset', retry-after-drain and the accounting/directory invariants; and the HTTP 507 / gRPC RESOURCE_EXHAUSTED mapping plus 'reads keep working' on every write path at server level.",
+        note="Retry-after-drain is required only when the item fits under the limit next to what is accounted after the drain (with limit close to max_size a full cache refuses large items permanently: admission precedes eviction by design).",
+        technique="explicit-state BFS + preemption-bounded schedule DFS over the real code with the remover under scheduler control",
+        design_ref="DESIGN.md 3 (C17)"),
     "C13": dict(
         category="exploration", engine="E4 grid",
         text="Exhaustive finite access matrix against the real start-up code: main's run() is started with flags for each of {no auth, htpasswd, mTLS} x allow_unauthenticated_reads x enable_endpoint_metrics (x remote asset API), on unix sockets; every HTTP method x endpoint (/cas, /ac, instance-prefixed /ac, /status, /metrics, /) and every registered gRPC method (discovered from all linked protobuf service descriptors) is called with every credential state (none, malformed, not-basic, unknown user, wrong/empty password, via authorization and via :authority; no / unverified / valid client certificate). Oracle written from the property: mutating or unknown => refused without valid credentials always; read-only => refused unless allow_unauthenticated_reads; valid => never refused; health Check always open; cache content unchanged.",
